@@ -11,7 +11,7 @@ open WhatwgUrl WhatwgUrl.Impl
 /-! The regenerated inventory (`costSitesTyped` in harness/facts.go, on go/types): inside a loop body — or, up to four calls
 down, at the top level of a function of the package that is called from inside that loop — every string built by `+=`,
 every conversion that copies its operand, every call of a function whose cost is linear in an operand. Numeric `+=` is
-not a site. The theorems are ∀-statements over the current inventory: a site that disappears changes nothing, a NEW site
+not a site, nor is a conversion whose operand is a fixed-size array or a local buffer of constant size. The theorems are ∀-statements over the current inventory: a site that disappears changes nothing, a NEW site
 must be classified here (or the obligation breaks and the cost search looks for a super-linear family). -/
 
 /-- sites whose cost per execution is not constant but is paid for by the input consumed since the site last ran (the
